@@ -56,7 +56,7 @@ def run(module, cfg_text, constants=None, workers=None, timeout=600, simulate=No
     with open(cfgpath, "w") as f:
         f.write(cfg)
     w = workers or NCPU
-    cmd = ["java", "-XX:+UseParallelGC", "-Xmx8g", "-cp", TLA_CP, "tlc2.TLC",
+    cmd = ["java", "-XX:+UseParallelGC", "-Xmx8g", "-Xss256m", "-cp", TLA_CP, "tlc2.TLC",
            "-metadir", os.path.join(work, "meta"), "-noGenerateSpecTE",
            "-config", cfgpath]
     if simulate:
